@@ -923,6 +923,16 @@ fn same_tick(a: u128, b: u128) -> bool {
     a != b && a.div_ceil(1_000_000) == b.div_ceil(1_000_000)
 }
 
+/// Generator-side only (never used for a verdict): the ns a well-formed value stands for.
+fn denote_for_filter(v: &[u8]) -> Option<u128> {
+    let (u, ds) = v.split_last()?;
+    let k = UNITS.iter().find(|(b, _)| b == u)?.1;
+    if ds.is_empty() || ds.len() > 8 || !ds.iter().all(|b| b.is_ascii_digit()) {
+        return None;
+    }
+    Some(std::str::from_utf8(ds).ok()?.parse::<u128>().ok()? * k)
+}
+
 fn raw_tok(vals: &[&[u8]]) -> String {
     vals.iter().map(|v| hex(v)).collect::<Vec<_>>().join(",")
 }
@@ -1083,7 +1093,12 @@ pub fn gen_more(tier: &str, rng: &mut Rng) -> Vec<String> {
             if !v.iter().all(|b| (*b >= 32 && *b != 127) || *b == 9) {
                 continue;
             }
-            // sub-ms conformant values (u/n units) are compared on the ms grid by tokio: keep whole-ms ones
+            // a conformant sub-ms value (u/n units) and the latency may fall into one timer tick
+            if let Some(w) = denote_for_filter(&v) {
+                if w < l && same_tick(w, l) {
+                    continue;
+                }
+            }
             out.push(format!("run {} {} {}", raw_tok(&[&v]), opt_tok(s), l));
         }
     }
